@@ -416,7 +416,7 @@ Section Rider.
     - unfold data_of. rewrite Ho. destruct (r_data (o_rec ob)) as [d|].
       + destruct (kv_get d k).
         * destruct (Hupd (fun r => set_data r (Some (kv_del d k))) (fun _ => eq_refl)) as (G1 & Q1 & H1).
-          apply Hquiet; assumption.
+          destruct (Hsave _ G1 Q1 H1) as (s' & E & G' & Q'). rewrite E. apply Hquiet; assumption.
         * apply Hquiet; [exact Hg | apply qt_refl].
       + apply Hquiet; [exact Hg | apply qt_refl].
     - destruct (login_G _ _ _ u ex Hg Hh) as (s' & n & E & G' & N' & H' & Hi' & -> & Hsu'). rewrite E.
